@@ -56,6 +56,12 @@ def lru_stems_from_parsed_url(parsed_url, suffix_aware=True):
 
         else:
             domain, suffix = split_result
+
+            # NOTE: split_suffix drops the empty root label of a fully
+            # qualified hostname ("lemonde.fr.")
+            if netloc[0].endswith("."):
+                lru.append("h:")
+
             lru.append("h:" + suffix)
 
             if domain:
